@@ -2985,13 +2985,13 @@ impl Node for XmlNotation {
     }
 
     fn previous_sibling(&self) -> Option<XmlNode> {
-        let parent = XmlNode::from(self.notation.borrow().parent());
-        parent.previous_sibling_child(self.as_node())
+        let parent = self.notation.borrow().parent().map(XmlNode::from);
+        parent.and_then(|parent| parent.previous_sibling_child(self.as_node()))
     }
 
     fn next_sibling(&self) -> Option<XmlNode> {
-        let parent = XmlNode::from(self.notation.borrow().parent());
-        parent.next_sibling_child(self.as_node())
+        let parent = self.notation.borrow().parent().map(XmlNode::from);
+        parent.and_then(|parent| parent.next_sibling_child(self.as_node()))
     }
 
     fn attributes(&self) -> Option<XmlNamedNodeMap<XmlAttr>> {
